@@ -176,7 +176,14 @@ def judgeBufStep (mode : Nat) (j : JB) (prev next : Step) (ln txt : Bytes) : JB 
     | some b =>
       let g := (ghostOf j b.id).getD { id := b.id, disk := none, text := b.text, row := next.xrow, dirty := b.dirty, histU := b.histU, histN := b.histN, savedAt := none }
       let msg := str next.msg
-      if (base == "e" || base == "ew") && next.rc == 0 && (msg.contains "[r]" || (bufById prev b.id).isNone) then
+      -- a line of several commands one of which is an edit command: the buffer was loaded when it is new or
+      -- carries a fresh time stamp
+      let lineLoads := !single && ((str ln).splitOn "|").any (fun sg =>
+          let (_, c, _) := splitCmd (byt sg)
+          let c := (str c).replace "!" ""
+          c == "e" || c == "ew") &&
+        (match bufById prev b.id with | none => true | some pb => pb.mtime != b.mtime)
+      if ((base == "e" || base == "ew") && next.rc == 0 && (msg.contains "[r]" || (bufById prev b.id).isNone)) || lineLoads then
         -- the buffer was (re)loaded from its file, or created for a file that does not exist
         -- what the file holds now is what was read (no write happened in a load step); the dumped file
         -- content is used so that further commands on the same line do not blur the picture
